@@ -15,7 +15,7 @@ use std::cell::RefCell;
 use std::io::{BufWriter, Read, Seek as IoSeek, SeekFrom, Write};
 use std::rc::Rc;
 
-pub const RULE: &str = "scenarios: encode+finalize through sample/byte/channel writers (stereo: seek table on/off × declared/undeclared; mono, 3 and 6 channels: sample and channel writers; raw frames with 3 channels) directly over the device (at offset 0 and behind a 24-byte foreign prefix) and over BufWriter<device> passed by value (as the crate's own create(path) does); FlacStreamWriter::write ×2; write_blocks; update_file in place (shrink / equal / grow into padding) and rebuilt; decode through 3 readers, the raw-frame reader (FlacStreamReader over a 16-byte BufReader), the structural frame iterator, a seek, verify_reader, generate_seektable, BlockList::read and update_file under failing reads. For each scenario EVERY index n of the n-th write/flush/seek (resp. read) call × {permanent from n, once at n, Interrupted at n, 1-byte short transfer at n}; every pair of faults on all scenarios; thorough adds every triple on scenarios with ≤ 64 targeted calls. A state is one (scenario, fault schedule); outcomes = (scenario, kind, api result, contents equal?)";
+pub const RULE: &str = "scenarios: encode+finalize through sample/byte/channel writers (stereo: seek table on/off × declared/undeclared; mono, 3 and 6 channels: sample and channel writers; raw frames with 3 channels) directly over the device (at offset 0 and behind a 24-byte foreign prefix) and over BufWriter<device> passed by value (as the crate's own create(path) does); FlacStreamWriter::write ×2; write_blocks; update_file in place (shrink / equal / grow into padding) and rebuilt; decode through 3 readers, the raw-frame reader (FlacStreamReader over a 16-byte BufReader), the structural frame iterator, a seek, verify_reader, generate_seektable, BlockList::read and update_file (in place, and the rebuild of a 9 KB file that is copied in several reads) under failing reads. For each scenario EVERY index n of the n-th write/flush/seek (resp. read) call × {permanent from n, once at n, Interrupted at n, 1-byte short transfer at n}; every pair of faults on all scenarios; thorough adds every triple on scenarios with ≤ 64 targeted calls. A state is one (scenario, fault schedule); outcomes = (scenario, kind, api result, contents equal?)";
 pub const ASSUMPTIONS: &[&str] = &["fault sequences with more than 2 (thorough: 3 on short scenarios) faults are not explored", "File-backed entry points (create/open/update(path)) are the same generic code over BufWriter<File>/File; they are represented by the BufWriter<device> scenarios"];
 pub fn bounds(quick: bool) -> Value {
     json!({"single_faults": "every call index × 4 kinds, all scenarios", "pairs": "all scenarios, all kinds", "triples": if quick { "none" } else { "scenarios with <= 40 targeted calls" }})
@@ -208,6 +208,26 @@ fn scenarios() -> Vec<Scen> {
                 Ok(())
             });
             r.map(|rebuilt| vec![rebuilt as u8]).map_err(e)
+        })));
+    }
+    // ---- a file larger than any I/O buffer (9 KB of incompressible audio), no padding, a growing edit: the rebuild path copies
+    //      the frames behind the new blocks in several reads — each of them may fail
+    {
+        let sig = Sig { rate: 44100, bps: 16, ch: 2 };
+        let mut g = crate::core::Lcg(0xC13);
+        let pcm: Vec<i32> = (0..2100 * 2).map(|_| (g.next() % 65536) as i32 - 32768).collect();
+        let base = crate::codec::encode(crate::codec::WriterKind::Sample, &Opt { seek: Seek::Off, pad: Pad::None, block: 256, ..Opt::base16() }, &sig, &pcm).expect("c13 corpus");
+        assert!(base.len() > 8400, "C13 large file is not larger than an 8 KiB buffer");
+        v.push(("update_file-rebuild-large-failing-reads".into(), Target::Reads, false, base, Box::new(move |env: &Env| {
+            let sink = env.secondary.clone();
+            let r: Result<bool, flac_codec::Error> = update_file(env.primary.clone(), move || Ok(sink), move |b: &mut BlockList| {
+                let mut vc = VorbisComment::default();
+                vc.insert("TITLE", "a title that does not fit anywhere");
+                b.insert(vc);
+                Ok(())
+            });
+            // the rebuilt file itself is the result that has to equal the fault-free run's
+            r.map(|rebuilt| { let mut out = vec![rebuilt as u8]; out.extend_from_slice(&env.secondary.0.borrow().inner.data); out }).map_err(e)
         })));
     }
     // ---- failing reads: decoders
